@@ -203,7 +203,7 @@ def judge_factory(rec, cfg):
             judge_pack_node(rec, nid, kind, n, c, acts, put_by, got_by, pack_emit[nid], pending[nid], where, v)
         # C09, non-blocking nodes: decide at once — push iff the probed edge has room, otherwise drop and count
         if kind in ("source", "machine") and not c.get("blocking", True):
-            pdisc = 0; spawn_t = {}
+            pdisc = 0; spawn_t = {}; rr_seen = {}
             for a in acts:
                 if a["stats"] is None: continue
                 cans = [x for x in a["calls"] if x.startswith("can ")]
@@ -232,6 +232,16 @@ def judge_factory(rec, cfg):
                     if c.get("out", "FIRST_AVAILABLE") != "FIRST_AVAILABLE" and len(cans) > 1:
                         v("C09", "probed-unselected", f"non-blocking {kind} {nid} at t={a['t']}: its policy selects ONE out-edge, yet it probed {[x.split()[1] for x in cans]}: "
                                                       f"the item must be pushed to the selected edge if that has room and dropped otherwise")
+                    # C15: an index / ROUND_ROBIN policy decides on ONE edge per item; a non-blocking node consults exactly that edge
+                    pol15 = c.get("out", "FIRST_AVAILABLE")
+                    probed = [int(x.split()[1][1:]) for x in cans]
+                    if isinstance(pol15, int) and probed and probed[0] != pol15:
+                        v("C15", "constant", f"non-blocking {kind} {nid} at t={a['t']}: constant out-edge {pol15} selected, yet it decided on out-edge {probed[0]}")
+                    if pol15 == "ROUND_ROBIN" and kind == "source" and probed:
+                        k15 = rr_seen.get(nid, 0); rr_seen[nid] = k15 + 1
+                        nout15 = len(n.out_edges)
+                        if probed[0] != k15 % nout15:
+                            v("C15", "round-robin", f"non-blocking source {nid} at t={a['t']}: decision #{k15} under ROUND_ROBIN has to be on out-edge {k15 % nout15}, it was on {probed[0]}")
                     for p in spawned: spawn_t[p] = a["t"]
                 elif d > pdisc + 0 and d != pdisc:
                     v("C09", "discard-without-probe", f"non-blocking {kind} {nid}: discard count rose without a can_put probe")
@@ -329,6 +339,10 @@ def judge_factory(rec, cfg):
                 v("C15", "constant", f"source {nid}: constant out-edge {outp} but pushed to {sorted(set(used))}")
             if outp == "ROUND_ROBIN" and c.get("blocking", True) and used != [i % nout for i in range(len(used))]:
                 v("C15", "round-robin", f"source {nid}: ROUND_ROBIN out-edge sequence is {used[:10]}")
+            if isinstance(outp, (list, tuple)) and rec.crash is None:
+                nsel = sum(1 for a in acts for x in a["calls"] if x.startswith("sel "))
+                if len(used) > nsel:
+                    v("C15", "user-once", f"source {nid}: {len(used)} items were pushed but the user selector was consulted {nsel} times (it has to be consulted once per item and obeyed)")
         # C08 / C10: a process waiting on reservation tokens goes on in the very instant the first of them is granted
         fire = {}
         for ev, tm in rec.env.fired_log:
@@ -406,17 +420,18 @@ def judge_pack_node(rec, nid, kind, n, c, acts, put_by, got_by, emit, pending, w
             if a["proc"] != 0: continue
             for x, it in zip([x for x in a["calls"] if x.startswith("get ")], a["items"]):
                 e = int(x.split()[1][1:]); iid = it[0]
-                if e == 0:
-                    cur = iid; loaded[cur] = {"pre": list(it[3]) if len(it) > 3 else [], "got": []}
+                if e == 0:      # a pallet may come round again (closed loops): one record per round
+                    cur = iid; loaded.setdefault(cur, []).append({"pre": list(it[3]) if len(it) > 3 else [], "got": []})
                 elif cur is not None:
-                    loaded[cur]["got"].append((iid, e))
+                    loaded[cur][-1]["got"].append((iid, e))
                 else:
                     v("C16", "item-without-pallet", f"combiner {nid} took item {iid} from in-edge {e} with no pallet in process")
+        rounds = {}
         for (u, what, t, content) in emit:
             if what != "put": continue
-            if u not in loaded:
+            if u not in loaded or rounds.get(u, 0) >= len(loaded[u]):
                 v("C16", "not-a-first-edge-pallet", f"combiner {nid} emitted {u}, which it did not take from its first in-edge"); continue
-            L = loaded[u]
+            L = loaded[u][rounds.get(u, 0)]; rounds[u] = rounds.get(u, 0) + 1
             want = L["pre"] + [i for i, _ in L["got"]]
             if list(content) != want:
                 v("C16", "content", f"combiner {nid}: pallet {u} left carrying {list(content)} but {want} were loaded onto it")
